@@ -12,6 +12,8 @@ INVARIANT DedupLaw
 INVARIANT ReplaceFixpoint
 INVARIANT RefusalJustified
 INVARIANT CharMapLaws
+INVARIANT WordLaws
+INVARIANT F12Nearest
 INVARIANT BbgLaws
 INVARIANT EndingsConsistent
 INVARIANT BlanksAndCommas
